@@ -5132,13 +5132,22 @@ impl<Front: SocketHandler> ConnectionH2<Front> {
     /// - 1xx informational responses
     /// - 204 No Content
     /// - 304 Not Modified
+    ///
+    /// Only a message read on a backend connection is a response. `context` is
+    /// shared by both sides of the stream: on the frontend connection its
+    /// method and status (set as soon as the backend sent an interim `100
+    /// Continue`) say nothing about the request being read, whose DATA must
+    /// always match its Content-Length (RFC 9113 §8.1.1).
     fn content_length_exempt(
         &self,
         context: &crate::protocol::kawa_h1::editor::HttpContext,
     ) -> bool {
         use crate::protocol::kawa_h1::parser::Method;
-        // HEAD method responses (only relevant when reading backend responses)
-        if self.position.is_client() && context.method == Some(Method::Head) {
+        if !self.position.is_client() {
+            return false;
+        }
+        // HEAD method responses
+        if context.method == Some(Method::Head) {
             return true;
         }
         // 1xx, 204, 304 status codes
